@@ -590,13 +590,190 @@ func gNty(t px.Type, pats, strs map[string]bool, depth int) (string, bool) {
 	return "(NTy " + lat.GTy(d) + ")", true
 }
 
+// an expected type with named types (aliases) at any position below Optional / Array / Hash / Tuple / Struct / Variant, as
+// a term of type ety over an alias environment (Model/DescribeNested.v): every alias OBJECT met is a declaration of the
+// environment (its resolved type, written after the aliases it refers to), a reference to it is `ERef i`; an alias-free
+// part that lies in the lattice universe is one ETy leaf.  nested = an alias stands below a constructor (outside the
+// universe of gNty).
+type xEnv struct {
+	idx    map[*types.TypeAliasType]int
+	busy   map[*types.TypeAliasType]bool
+	bodies []string
+	nested bool
+}
+
+func newXEnv() *xEnv {
+	return &xEnv{idx: map[*types.TypeAliasType]int{}, busy: map[*types.TypeAliasType]bool{}}
+}
+
+func gEty(t px.Type, env *xEnv, pats, strs map[string]bool, depth int, below bool) (string, bool) {
+	if depth > 40 {
+		return "", false
+	}
+	d := types.VerifDecodeType(t)
+	if !hasAliasLeaf(d) {
+		if !lat.InModel(d) || hasNewline(d) {
+			return "", false
+		}
+		lat.TyStrings(d, pats, strs)
+		return "(ETy " + lat.GTy(d) + ")", true
+	}
+	list := func(ts []px.Type) (string, bool) {
+		gs := make([]string, len(ts))
+		for i, c := range ts {
+			g, ok := gEty(c, env, pats, strs, depth+1, true)
+			if !ok {
+				return "", false
+			}
+			gs[i] = g
+		}
+		return lib.GList(gs, "ety"), true
+	}
+	switch t := t.(type) {
+	case *types.TypeAliasType:
+		if below {
+			env.nested = true
+			// where the alias shows in (class, path): a Variant below it (through Optionals and further aliases)
+			r := t.ResolvedType()
+			for k := 0; k < 20; k++ {
+				if o, ok := r.(*types.OptionalType); ok {
+					r = o.ContainedType()
+				} else if a, ok := r.(*types.TypeAliasType); ok && a.ResolvedType() != nil {
+					r = a.ResolvedType()
+				} else {
+					break
+				}
+			}
+			if _, ok := r.(*types.VariantType); ok {
+				xVariantBelowNestedAlias = true
+			}
+		}
+		if i, ok := env.idx[t]; ok {
+			return fmt.Sprintf("(ERef %d)", i), true
+		}
+		if t.ResolvedType() == nil || env.busy[t] {
+			return "", false // unresolved, or a recursive alias: no unfolding
+		}
+		env.busy[t] = true
+		r, ok := gEty(t.ResolvedType(), env, pats, strs, depth+1, false)
+		if !ok {
+			return "", false
+		}
+		env.idx[t] = len(env.bodies)
+		env.bodies = append(env.bodies, r)
+		return fmt.Sprintf("(ERef %d)", env.idx[t]), true
+	case *types.OptionalType:
+		r, ok := gEty(t.ContainedType(), env, pats, strs, depth+1, true)
+		if !ok {
+			return "", false
+		}
+		return "(EOptional " + r + ")", true
+	case *types.ArrayType:
+		r, ok := gEty(t.ElementType(), env, pats, strs, depth+1, true)
+		if !ok {
+			return "", false
+		}
+		return fmt.Sprintf("(EArray %s %s %s)", r, lib.GZ(d.Lo), lib.GZ(d.Hi)), true
+	case *types.HashType:
+		k, ok := gEty(t.KeyType(), env, pats, strs, depth+1, true)
+		if !ok {
+			return "", false
+		}
+		v, ok := gEty(t.ValueType(), env, pats, strs, depth+1, true)
+		if !ok {
+			return "", false
+		}
+		return fmt.Sprintf("(EHash %s %s %s %s)", k, v, lib.GZ(d.Lo), lib.GZ(d.Hi)), true
+	case *types.TupleType:
+		l, ok := list(t.Types())
+		if !ok {
+			return "", false
+		}
+		return fmt.Sprintf("(ETuple %s %s %s %s)", l, lib.GBool(d.HasSize), lib.GZ(d.Lo), lib.GZ(d.Hi)), true
+	case *types.VariantType:
+		l, ok := list(t.Types())
+		if !ok {
+			return "", false
+		}
+		return "(EVariant " + l + ")", true
+	case *types.StructType:
+		ms := make([]string, len(t.Elements()))
+		for i, e := range t.Elements() {
+			// the key of a member is a lattice type
+			if hasAliasLeaf(d.Keys[i]) || !lat.InModel(d.Keys[i]) || hasNewline(d.Keys[i]) {
+				return "", false
+			}
+			lat.TyStrings(d.Keys[i], pats, strs)
+			v, ok := gEty(e.Value(), env, pats, strs, depth+1, true)
+			if !ok {
+				return "", false
+			}
+			ms[i] = fmt.Sprintf("(%s, (%s, %s))", lib.GStr(d.Names[i]), lat.GTy(d.Keys[i]), v)
+		}
+		return "(EStruct " + lib.GList(ms, "str * (ty * ety)") + ")", true
+	}
+	return "", false // an alias below NotUndef / Type / Sensitive / Iterable / Callable ...: no describer of its own
+}
+
+// set by gXty (the harness is single-threaded here)
+var xVariantBelowNestedAlias bool
+
+func hasAliasLeaf(d *types.VerifTy) bool {
+	if d.K == "Alias" {
+		return true
+	}
+	for _, e := range d.Ts {
+		if hasAliasLeaf(e) {
+			return true
+		}
+	}
+	for _, e := range d.Keys {
+		if hasAliasLeaf(e) {
+			return true
+		}
+	}
+	return false
+}
+
+func newXHistCases() *lib.CasesFile {
+	return &lib.CasesFile{Imports: append(append([]string{}, histImports...), "Model.DescribeNested"), Typ: "xhist_case",
+		Obligations: map[string]string{"nested_alias_history_model": "xhist_mismatches orc cases"}}
+}
+
+// whether an expected object of the history has a named type below a constructor and all of them lie in the universe
+func histNested(hr *hRun) bool {
+	env := newXEnv()
+	xVariantBelowNestedAlias = false
+	for _, e := range hr.Objects.E {
+		if _, ok := gEty(e, env, map[string]bool{}, map[string]bool{}, 0, false); !ok {
+			return false
+		}
+	}
+	return env.nested
+}
+
+// the instance for nested named types (Model/DescribeNested.v): one alias environment for the world
+func addXHistCase(cf *lib.CasesFile, pats, strs map[string]bool, h *HSpec, hr *hRun) bool {
+	env := newXEnv()
+	return addTypedHistCase(cf, pats, strs, h, hr, "ety", func(e px.Type, p2, s2 map[string]bool) (string, bool) {
+		return gEty(e, env, p2, s2, 0, false)
+	}, func() string { return lib.GList(env.bodies, "ety") + ", " })
+}
+
 // the named instance; false when an object of the world lies outside its universe
 func addNHistCase(cf *lib.CasesFile, pats, strs map[string]bool, h *HSpec, hr *hRun) bool {
+	return addTypedHistCase(cf, pats, strs, h, hr, "nty", func(e px.Type, p2, s2 map[string]bool) (string, bool) {
+		return gNty(e, p2, s2, 0)
+	}, func() string { return "" })
+}
+
+func addTypedHistCase(cf *lib.CasesFile, pats, strs map[string]bool, h *HSpec, hr *hRun, etyp string,
+	gE func(e px.Type, p2, s2 map[string]bool) (string, bool), head func() string) bool {
 	o := hr.Objects
 	p2, s2 := map[string]bool{}, map[string]bool{}
 	es := make([]string, len(o.E))
 	for i, e := range o.E {
-		g, ok := gNty(e, p2, s2, 0)
+		g, ok := gE(e, p2, s2)
 		if !ok {
 			return false
 		}
@@ -632,7 +809,7 @@ func addNHistCase(cf *lib.CasesFile, pats, strs map[string]bool, h *HSpec, hr *h
 	for k := range s2 {
 		strs[k] = true
 	}
-	cf.Add(histShort(fmt.Sprintf("(%s, %s, %s, %s, %s)", lib.GList(es, "nty"), lib.GList(as, "ty"), lib.GList(vs, "value * ty"), gCalls(h), gObsList(hr))), h.input(-1))
+	cf.Add(histShort(fmt.Sprintf("(%s%s, %s, %s, %s, %s)", head(), lib.GList(es, etyp), lib.GList(as, "ty"), lib.GList(vs, "value * ty"), gCalls(h), gObsList(hr))), h.input(-1))
 	return true
 }
 
@@ -882,8 +1059,16 @@ func histories(rng *lib.Rng, res *lib.Result, thorough bool) []*HSpec {
 
 func runHist(cfg *lib.Config, res *lib.Result, rng *lib.Rng) {
 	hs := histories(rng, res, cfg.Thorough())
-	ocf, ncf := newOHistCases(), newNHistCases()
+	ocf, ncf, xcf := newOHistCases(), newNHistCases(), newXHistCases()
 	pats, strs := map[string]bool{}, map[string]bool{}
+	xpats, xstrs := map[string]bool{}, map[string]bool{}
+	// histories with a named type BELOW a constructor go through Model/DescribeNested.v: a share of every family
+	// (a quarter of the step where the alias shows in the (class, path) image: a Variant below a nested alias)
+	xStep := map[string]int{"shared-place": 3, "shared-name": 12, "pair": 80, "entries": 100, "value": 80, "random": 40, "twin-type": 40, "twin-value": 40}
+	if cfg.Thorough() {
+		xStep = map[string]int{"shared-place": 1, "shared-name": 3, "pair": 3, "entries": 3, "value": 3, "random": 3, "twin-type": 3, "twin-value": 3}
+	}
+	xSeen, nestedHist, xTaken := map[string]int{}, 0, 0
 	nO, nN := 320, 250
 	if cfg.Thorough() {
 		nO, nN = 3000, 2000
@@ -913,6 +1098,25 @@ func runHist(cfg *lib.Config, res *lib.Result, rng *lib.Rng) {
 			failedCases++
 			take = true
 		}
+		if histNested(hr) {
+			nestedHist++
+			st := xStep[h.Fam]
+			if st == 0 {
+				st = 20
+			}
+			fam := h.Fam
+			if xVariantBelowNestedAlias {
+				fam, st = fam+"+variant", (st+3)/4
+				res.Count("hist.nested-alias-over-variant")
+			}
+			if xSeen[fam]%st == 0 || (failed && failedCases <= 20) {
+				if addXHistCase(xcf, xpats, xstrs, h, hr) {
+					xTaken++
+					res.Count("hist.nested-model." + h.Fam)
+				}
+			}
+			xSeen[fam]++
+		}
 		if !take {
 			continue
 		}
@@ -929,7 +1133,10 @@ func runHist(cfg *lib.Config, res *lib.Result, rng *lib.Rng) {
 	res.Extra["histories_in_the_named_model"] = named
 	ocf.Prelude = histPrelude()
 	ncf.Prelude = lat.Oracle(pats, strs) + histPrelude()
-	res.CorrFiles = append(res.CorrFiles, ocf.WriteTo(cfg.Out, "cases_hist_0"), ncf.WriteTo(cfg.Out, "cases_nhist_0"))
+	res.Extra["histories_with_a_named_type_below_a_constructor"] = nestedHist
+	res.Extra["histories_in_the_nested_alias_model"] = xTaken
+	xcf.Prelude = lat.Oracle(xpats, xstrs) + histPrelude()
+	res.CorrFiles = append(res.CorrFiles, ocf.WriteTo(cfg.Out, "cases_hist_0"), ncf.WriteTo(cfg.Out, "cases_nhist_0"), xcf.WriteTo(cfg.Out, "cases_xhist_0"))
 	if len(hs) > 0 {
 		h := hs[len(hs)/3]
 		if hr, _ := runHistory(lib.NewResult("C19"), h); hr != nil {
@@ -944,7 +1151,7 @@ func runHist(cfg *lib.Config, res *lib.Result, rng *lib.Rng) {
 
 // ---- replay ----
 
-func replayHist(res *lib.Result, in interface{}, ocf, ncf *lib.CasesFile, pats, strs map[string]bool) bool {
+func replayHist(res *lib.Result, in interface{}, ocf, ncf, xcf *lib.CasesFile, pats, strs map[string]bool) bool {
 	m, ok := in.(map[string]interface{})
 	if !ok || m["kind"] != "hist" {
 		return false
@@ -968,6 +1175,8 @@ func replayHist(res *lib.Result, in interface{}, ocf, ncf *lib.CasesFile, pats, 
 		fmt.Println("the clauses of the property hold on every call of this history")
 	}
 	addOHistCase(ocf, &h, hr, string(wk))
-	addNHistCase(ncf, pats, strs, &h, hr)
+	if !addNHistCase(ncf, pats, strs, &h, hr) {
+		addXHistCase(xcf, pats, strs, &h, hr)
+	}
 	return true
 }
